@@ -42,6 +42,8 @@ def run(ctx, rep, tier):
     # the internal problem the verdict is about is built from the presolved-or-original data consistently
     from . import c18
     c18.stage_rules(ctx, rep, 'C01.R10')
+    from . import primitives
+    primitives.vector_primitives(rep, ctx.facts('default'), ctx.eff('default'), '', 'C01.R11')
 
 
 class _Renamed:
